@@ -52,7 +52,10 @@ CHECKS = {
           "lowers and success only raises the rate; the LFU table never exceeds max(maxBuckets, 1). Constants, status classes, the "
           "floor and penalty expressions are regenerated from the package; event sequences run against the real tokenBucket under an "
           "injected clock (plus the real blocking Wait and the real BucketManager) and are compared with the model and with "
-          "independent window/penalty/rate oracles.",
+          "independent window/penalty/rate oracles. The methods themselves (refill, one Wait attempt, adjustOnFailure, onSuccess, "
+          "newTokenBucket) are translated statement by statement from the source on every run into a small imperative language with "
+          "a Lean semantics; theorems prove that the translated programs compute exactly the model functions for every bucket, time "
+          "and status (so the bounds hold for the translated code) and that every field access happens under the mutex.",
   "note": COMMON_NOTE + "Modelled not verified: float64 arithmetic (the theorems are about exact rationals; decisions are compared "
           "exactly, numbers within 1e-9), non-decreasing time, method atomicity by the mutex, Go map iteration order in LFU eviction.",
  },
